@@ -265,5 +265,21 @@ func runC08(ctx *harness.Ctx) {
 		})
 		ctx.Exhaustive(fmt.Sprintf("%d size-sweep templates x every size 0..%d and 2^k-1..2^k+1 up to %d", len(sweepTemplates), ctx.Pick(sweepMax, 1100), ctx.Pick(4096, 16384)), ctx.ViolationCount() == 0)
 	})
+	ctx.Leg("size-sweep-2d", func() {
+		kinds := map[string]string{"ParseExpr": "expr", "ParseQuery": "query", "ParseDML": "dml", "ParseDDL": "ddl", "ParseType": "type"}
+		forSweep2(ctx, func(entry, src string, a, b int) bool {
+			kind, ok := kinds[entry]
+			if !ok || strings.Contains(src, "ARRAY<ARRAY<") || strings.Contains(src, "((SELECT 1))") {
+				return true // as in the one-parameter sweep: only documented forms
+			}
+			cs := &harness.Case{Leg: "size-sweep-2d", Entry: entry, Input: src, Aux: map[string]string{"kind": kind, "plain": trunc(src, 200)}}
+			ctx.Eval(1)
+			if a >= 2 && b >= 2 {
+				ctx.NonTrivial(harness.Hash("sweep2", src))
+			}
+			ctx.Check(nil, cs, oracleC08(ctx, cs))
+			return ctx.ViolationCount() < 6
+		})
+	})
 	ctx.SetExtra("sentences_with_avoided_known_feature", float64(excluded))
 }
